@@ -232,3 +232,72 @@ func specEncode(r *vlib.Rand, cs []glyf.Contour, ins []byte) []byte {
 	out = append(out, yb...)
 	return out
 }
+
+// specLen: the number of bytes the simple-glyph description at the start of b
+// occupies according to the format (end points, instructions, flags with
+// repeats, x and y coordinates), if b holds all of it and the flag repeats do
+// not overrun the point count.
+func specLen(nc int, b []byte) (int, bool) {
+	if nc < 0 {
+		return 0, false
+	}
+	pos := 0
+	need := func(k int) bool { return pos+k <= len(b) }
+	np := 0
+	for i := 0; i < nc; i++ {
+		if !need(2) {
+			return 0, false
+		}
+		e := int(b[pos])<<8 | int(b[pos+1])
+		pos += 2
+		if i > 0 && e+1 <= np {
+			return 0, false
+		}
+		np = e + 1
+	}
+	if !need(2) {
+		return 0, false
+	}
+	il := int(b[pos])<<8 | int(b[pos+1])
+	pos += 2
+	if !need(il) {
+		return 0, false
+	}
+	pos += il
+	xb, yb, got := 0, 0, 0
+	for got < np {
+		if !need(1) {
+			return 0, false
+		}
+		f := b[pos]
+		pos++
+		rep := 1
+		if f&0x08 != 0 {
+			if !need(1) {
+				return 0, false
+			}
+			rep += int(b[pos])
+			pos++
+		}
+		if got+rep > np {
+			return 0, false
+		}
+		got += rep
+		switch {
+		case f&0x02 != 0:
+			xb += rep
+		case f&0x10 == 0:
+			xb += 2 * rep
+		}
+		switch {
+		case f&0x04 != 0:
+			yb += rep
+		case f&0x20 == 0:
+			yb += 2 * rep
+		}
+	}
+	if !need(xb + yb) {
+		return 0, false
+	}
+	return pos + xb + yb, true
+}
